@@ -39,19 +39,27 @@ def cases(tier, seed):
     yield {"u": [["p", "q"], ["p", "r"]], "x": [["q"], ["r"]], "target": "qr", "deltas": False}
     yield {"u": [["p", "q"], ["p", "q"]], "x": [], "target": "", "deltas": False}
     yield {"u": [["p", "q"], ["p", "r"]], "x": [["p", "q", "r"]], "target": "", "deltas": True}
+    # the common index also sits on a numerator and on a denominator object
+    yield {"u": [["p", "q"], ["p", "r"]], "x": [["p", "s"], ["p"]], "xe": [1, -1], "target": "qrs", "deltas": False}
+    yield {"u": [["q", "p"], ["r", "p"]], "x": [["p", "s"], ["p", "s"]], "xe": [1, -1], "target": "qr", "deltas": True}
     for _ in range(150 if tier == "quick" else 3000):
         nu = rng.randint(2, 4)
         us = [rng.sample(NAMES[:5], 2) for _ in range(nu)]
         xs = [rng.sample(NAMES, rng.randint(1, 2)) for _ in range(rng.randint(0, 2))]
         used = sorted({n for t in us + xs for n in t})
         tgt = "".join(rng.sample(used, rng.randint(0, min(3, len(used))))) if rng.random() < 0.7 else None
-        yield {"u": us, "x": xs, "target": tgt, "deltas": rng.random() < 0.5}
+        case = {"u": us, "x": xs, "target": tgt, "deltas": rng.random() < 0.5}
+        if xs and rng.random() < 0.4:
+            # remainder objects in the denominator / with powers
+            case["xe"] = [rng.choice([1, -1, -1, 2]) for _ in xs]
+        yield case
 
 
 def check(case):
     idx = {n: get_symbols(n)[0] for n in NAMES}
     fs = [NonSymmetricTensor("U", (idx[a], idx[b])) for a, b in case["u"]]
-    fs += [NonSymmetricTensor(f"X{n}", tuple(idx[k] for k in t)) for n, t in enumerate(case["x"])]
+    xe = case.get("xe") or [1] * len(case["x"])
+    fs += [NonSymmetricTensor(f"X{n}", tuple(idx[k] for k in t)) ** xe[n] for n, t in enumerate(case["x"])]
     term = Mul(*fs)
     if case["target"] is None:
         e = Expr(term)
@@ -89,6 +97,6 @@ CHECKS = {
     "simplify_unitary.value": {
         "function": "adcgen.simplify:simplify_unitary.simplify_term_unitary",
         "cases": cases, "check": check,
-        "bound": "products of 2-4 unitary tensors (repeats = powers) with <= 2 remainder tensors over 6 general index names, Einstein or explicit targets, evaluate_deltas on/off; rational orthogonal 4x4 matrix, all target assignments",
+        "bound": "products of 2-4 unitary tensors (repeats = powers) with <= 2 remainder tensors (exponents 1, 2, -1) over 6 general index names, Einstein or explicit targets, evaluate_deltas on/off; rational orthogonal 4x4 matrix, all target assignments",
     },
 }
